@@ -273,6 +273,19 @@ class ExecCore:
             self.st.tagset[path] = (cur & names) if (d != neg) else (cur - names)
         return d
 
+    def push_cond(self, state, cond):
+        """append a branch condition to a state's path condition, with the tag bookkeeping of decide()"""
+        state.pc.append(cond)
+        tf, neg = self.smt.tagforms.get(cond.get_id()), False
+        if tf is None and z3.is_not(cond):
+            tf, neg = self.smt.tagforms.get(cond.arg(0).get_id()), True
+        if tf is not None:
+            path, names, allowed = tf
+            cur = state.tagset.get(path, allowed)
+            if cur is None:
+                cur = self.tags.all()
+            state.tagset[path] = (cur - names) if neg else (cur & names)
+
     def feasible_tags(self, path, allowed):
         cur = self.st.tagset.get(path)
         if cur is None:
@@ -324,9 +337,9 @@ class ExecCore:
             if parts == ["querycls"]:
                 return Fn("class", self.repo.cls("queries.Query"))
             label = ""
-            for lab in ("name", "sql", "value"):
+            for lab in ("name", "sql", "value", "data"):
                 if lab in parts:
-                    label = lab
+                    label = "value" if lab == "data" else lab
             tagset = set()
             cont = None
             for p in parts:
@@ -334,6 +347,9 @@ class ExecCore:
                     tagset |= {"str"}
                 elif p == "value":
                     tagset |= set(self.tags.all())
+                elif p == "data":
+                    from .values import EXT_KINDS
+                    tagset |= set(EXT_KINDS)
                 elif parse_spec(p)[0] != "scalar":
                     cont = p
                     tagset |= {parse_spec(p)[0].replace("tuplevar", "tuple")}
